@@ -314,6 +314,38 @@ type Pool struct {
 	New   func() any
 	real  sync.Pool
 	items []any
+	known bool
+}
+
+// Simulated pools are emptied at the start of every simulation: a real
+// sync.Pool may be emptied by the collector at any time, and pooled objects
+// that survive from an earlier run would make this run depend on the worker
+// process's history.
+var (
+	poolsMu  sync.Mutex
+	allPools []*Pool
+)
+
+func init() {
+	simrt.OnRunStart(func() {
+		poolsMu.Lock()
+		for _, p := range allPools {
+			p.items = nil
+		}
+		poolsMu.Unlock()
+	})
+}
+
+func (p *Pool) register() {
+	if p.known {
+		return
+	}
+	poolsMu.Lock()
+	if !p.known {
+		p.known = true
+		allPools = append(allPools, p)
+	}
+	poolsMu.Unlock()
 }
 
 func (p *Pool) Get() any {
@@ -348,5 +380,6 @@ func (p *Pool) Put(x any) {
 	if x == nil {
 		return
 	}
+	p.register()
 	p.items = append(p.items, x)
 }
